@@ -21,7 +21,7 @@ from concurrent.futures import ThreadPoolExecutor
 from ..common import Run, MachineryError, quiet_pygaps, exc_class
 from .. import tlc
 from ..encode import dec_dec
-from ..models_common import frac, fpar, par_key, build, denc as dec_enc, history_records, elementwise_records, wrapper_elementwise_records
+from ..models_common import frac, fpar, par_key, build, denc as dec_enc, history_records, elementwise_records, wrapper_elementwise_records, integer_records
 
 PID = "C11"
 TOL_CLOSED = 1e-9     # analytic antiderivatives of the library
@@ -228,8 +228,12 @@ def unit_factors(pairs):
                                  material_basis="mass", material_unit="g")
     atoms = Atoms(probe.adsorbate, 77.344, probe.material)
     kind = lambda rep: "P" if rep[0] in ("absolute", "relative", "relative%") else "L"   # noqa: E731
-    ans = tlc.oracle("UnitsOracle", [{"k": kind(f), "f": list(f), "t": list(t), "m": ["mass", "g"]} for f, t in pairs])
-    out = {}
+    ans = tlc.oracle("UnitsOracle", [{"k": kind(f), "f": list(f), "t": list(t), "m": ["mass", "g"]} for f, t in pairs]
+                     + [{"k": "T", "f": ["x", "°C"], "t": ["x", "K"], "m": ["x", "x"]}])
+    tk = [x["k"] for x in ans[-1]["allowed"] if x["kind"] == "val"]
+    if len(tk) != 1:
+        raise MachineryError("unit specification gives no unique kelvin offset for degC")
+    out = {"degC_to_K": tk[0] * 273.15}
     for (f, t), a in zip(pairs, ans):
         vals = [x for x in a["allowed"] if x["kind"] == "val"]
         out[(f, t)] = atoms.value(vals[0]["vec"]) if vals else None
@@ -251,16 +255,22 @@ def model_isotherm_units(run, meta, rng, thorough, batch, fac):
     cases = [("Langmuir", {"K": [7, 5], "n_m": [17, 5]}, [0.05, 0.8, 6.0]),
              ("BET", {"n_m": [3, 4], "C": [80, 1], "N": [2, 5]}, [0.05, 0.5, 1.2]),
              ("Toth", {"n_m": [17, 5], "K": [13, 2], "t": [3, 4]}, [0.02, 0.3, 1.7]),
-             ("DSLangmuir", {"n_m1": [3, 4], "K1": [13, 2], "n_m2": [6, 5], "K2": [9, 10]}, [0.03, 0.5, 4.0])]
+             ("DSLangmuir", {"n_m1": [3, 4], "K1": [13, 2], "n_m2": [6, 5], "K2": [9, 10]}, [0.03, 0.5, 4.0]),
+             # the models whose equation holds the temperature: the isotherm must hand them kelvin whatever its temperature unit
+             ("DR", {"n_m": [17, 5], "e": [1500, 1]}, [0.1, 0.4, 0.9]),
+             ("DA", {"n_m": [17, 5], "e": [1500, 1], "m": [5, 2]}, [0.1, 0.4, 0.9])]
     for model, par, ps in cases:
         bare = build(model, par)
-        for n0 in natives:
-            iso = pygaps.ModelIsotherm(model=build(model, par), material=dict(MAT), adsorbate="nitrogen", temperature=77.344,
+        bare.__init_parameters__({"temperature": 77.344})
+        for n0, (tunit, tval) in [(n0, t) for n0 in natives for t in (("K", 77.344), ("°C", 77.344 - fac["degC_to_K"]))]:
+            if tunit != "K" and model not in ("DR", "DA", "Langmuir"):
+                continue
+            iso = pygaps.ModelIsotherm(model=build(model, par), material=dict(MAT), adsorbate="nitrogen", temperature=tval, temperature_unit=tunit,
                                        pressure_mode=n0[0], pressure_unit=dec(n0[1]), loading_basis="molar", loading_unit="mmol",
                                        material_basis="mass", material_unit="g")
             for f in FOREIGN + [n0]:
                 k = fac[(n0, f)]
-                ctx = {"native_mode": n0[0], "pressure_mode": f[0]}
+                ctx = {"native_mode": n0[0], "pressure_mode": f[0], "temperature_unit": tunit}
                 kw = dict(pressure_mode=f[0], pressure_unit=dec(f[1]))
                 for p in ps:
                     run.count(("miso", model, n0, f, p), nontrivial=f != n0)
@@ -271,7 +281,7 @@ def model_isotherm_units(run, meta, rng, thorough, batch, fac):
                                        "observed": _noval(o) if o[0] != "val" else "differs from the bare model at the converted pressure"},
                                       {"parameters": fpar(par), "argument": p * k, "kwargs": kw, "expected": exp, "returned": o[1:], "unit_factor": k})
                 # the integral identity through the wrapper, in the foreign unit
-                if thorough or f in (("absolute", "torr"), ("relative", "none")):
+                if tunit == "K" and model not in ("DR", "DA") and (thorough or f in (("absolute", "torr"), ("relative", "none"))):
                     grid = [x * k for x in geo_grid(ps[-1], meta)]
                     rec, problems = geo_record(model, par, meta, "model", grid,
                                                lambda q: sp_call(iso.loading_at, q, **kw), lambda q: sp_call(iso.spreading_pressure_at, q, **kw))
@@ -460,7 +470,7 @@ def main(tier, seed):
     relational(run, grid, meta, rng, thorough, batch)
     model_isotherm_units(run, meta, rng, thorough, batch, fac)
     point_isotherms(run, scen, meta, rng, thorough, batch, fac)
-    hp = tlc.oracle("SpreadingOracle", [{"k": "histplan"}, {"k": "elemplan"}], timeout=600)
+    hp = tlc.oracle("SpreadingOracle", [{"k": "histplan"}, {"k": "elemplan"}, {"k": "intplan"}], timeout=600)
     plans, eplan = hp[0]["plans"], hp[1]
     # elementwise clause where arrays are accepted (the analytic antiderivatives): unsorted arrays with a repeated element
     import pygaps
@@ -480,6 +490,25 @@ def main(tier, seed):
             batch.add(rec, handler)
             ne += 1
     run.set(elementwise_records=ne)
+    # integer-typed pressures (whole numbers chosen by the specification inside the validity range) vs the float of equal value
+    intplan = hp[2]
+    ni = 0
+    for model in sorted(intplan):
+        entries = sorted(intplan[model], key=lambda e: (-len(e["pressures"]), par_key(e["par"])))
+        best = [e for e in entries if len(e["pressures"]) == len(entries[0]["pressures"])]
+        e = best[rng.randrange(len(best))]
+        ints = [int(v) for v in e["pressures"]]
+        mdl = build(model, e["par"])
+        iso = pygaps.ModelIsotherm(model=build(model, e["par"]), material=dict(MAT), adsorbate="nitrogen", temperature=77.344,
+                                   pressure_mode="absolute", pressure_unit="bar", loading_basis="molar", loading_unit="mmol",
+                                   material_basis="mass", material_unit="g")
+        for rec, handler in (integer_records(run, model, model, mdl.spreading_pressure, "spreading_pressure", ints,
+                                             ("python_int", "numpy_int64", "0d_int_array", "int_ndarray", "int_series"), "bare")
+                             + integer_records(run, "ModelIsotherm", model, iso.spreading_pressure_at, "spreading_pressure_at", ints,
+                                               ("python_int", "int_ndarray", "int_list", "int_series"), "wrapper")):
+            batch.add(rec, handler)
+            ni += 1
+    run.set(integer_input_records=ni)
     nh = 0
     for model in sorted(plans):
         for rec, handler in history_records(run, plans[model], model, "loading", [("loading", "args"), ("spreading_pressure", "args")],
@@ -497,7 +526,8 @@ def main(tier, seed):
                  "re-evaluated after each step) for " + ("5" if thorough else "2") + " seeded parameter-vector pairs per model, judged against a fresh model (Models!HistStep); "
                  "(b3) elementwise clause for the 9 models whose spreading_pressure accepts arrays: unsorted 6-element ndarray / pandas.Series with a repeated element (patterns from the "
                  "specification) judged position by position against the scalar call, and ndarray/list/Series through ModelIsotherm.spreading_pressure_at (Models!ElemStep); "
-                 "(c) ModelIsotherm.spreading_pressure_at for 4 models x 2 native modes x 6 pressure representations; (d) "
+                 "(b4) integer-typed pressures (Python int, numpy.int64, 0-d/1-d integer arrays, Series, lists through the wrapper) against the float of equal value; "
+                 "(c) ModelIsotherm.spreading_pressure_at for 6 models (incl. DR/DA with the temperature stored in K and in degC) x 2 native modes x 6 pressure representations; (d) "
                  + ("all 475" if thorough else "90 seeded") + " enumerated point-isotherm data sets x every query class (below range, first point, inside, data point, edge) "
                  "x native / foreign pressure unit or mode / loading unit, each data set as the only adsorption branch and as the desorption branch (branch='des') of a two-branch isotherm stored descending / ascending. non-trivial = positive pressure (a) / query beyond the Henry segment (d); "
                  "distinct = distinct (part, model or data set, parameters, pressure or query, unit variant)")
